@@ -248,4 +248,146 @@ theorem le_scaleRadius_iff (m : Metric) (d r : α) :
 
 end Field
 
+
+/-! ### the query theorem (stated again as `C06_query_spec` in Props/C06.lean) -/
+
+section Query
+variable {P α : Type} [Field α] [LinearOrder α] [IsStrictOrderedRing α]
+
+/-- distance of two points in kilometres, as `query` reports it -/
+def distKm (m : Metric) (dist : P → P → α) (a b : P) : α := scaleDist m (dist a b)
+
+/-- outcome of `np.random.shuffle(arange(n))` (any permutation), or `shuffle=False` -/
+def ValidShuffle (n : Nat) : Option (List Nat) → Prop
+  | none => True
+  | some σ => σ.Perm (List.range n)
+
+/-- what the property demands of `(pairs, distances)`: the pairs are exactly the
+(build index, query index) combinations — indices into the arrays *as passed in* — whose
+distance is at most `r` km, each once, and `distances[k]` is the distance of `pairs[k]`. -/
+def QuerySpec (m : Metric) (dist : P → P → α) (pts qs : List P) (r : α)
+    (pairs : List (Nat × Nat)) (ds : List α) : Prop :=
+  (∀ i q, (i, q) ∈ pairs ↔ ∃ b p, pts[i]? = some b ∧ qs[q]? = some p ∧ distKm m dist b p ≤ r) ∧
+  pairs.Nodup ∧
+  List.Forall₂ (fun pr d => ∃ b p, pts[pr.1]? = some b ∧ qs[pr.2]? = some p ∧
+    d = distKm m dist b p) pairs ds
+
+theorem spec_of_Z (m : Metric) (hm : m ≠ .unknown) (dist : P → P → α) (pts qs tp : List P)
+    (r : α) (Z : List ((Nat × Nat) × α)) (tr : Nat → Nat)
+    (hZ : ∀ j q d, ((j, q), d) ∈ Z ↔
+      ∃ b p, tp[j]? = some b ∧ qs[q]? = some p ∧ dist b p ≤ scaleRadius m r ∧ d = dist b p)
+    (hnd : (Z.map Prod.fst).Nodup)
+    (htr : ∀ j b, tp[j]? = some b → pts[tr j]? = some b)
+    (hsurj : ∀ i b, pts[i]? = some b → ∃ j, tr j = i ∧ tp[j]? = some b)
+    (hinj : ∀ j j', j < tp.length → j' < tp.length → tr j = tr j' → j = j') :
+    QuerySpec m dist pts qs r ((Z.map Prod.fst).map (fun p => (tr p.1, p.2)))
+      ((Z.map Prod.snd).map (scaleDist m)) := by
+  have hle : ∀ d : α, d ≤ scaleRadius m r ↔ scaleDist m d ≤ r := fun d => by
+    rw [le_scaleRadius_iff]; simp [hm]
+  refine ⟨?_, ?_, ?_⟩
+  · intro i q
+    simp only [List.mem_map, Prod.mk.injEq, Prod.exists, exists_and_right, exists_eq_right]
+    constructor
+    · rintro ⟨j, q', ⟨d, hmem⟩, rfl, rfl⟩
+      obtain ⟨b, p, hb, hp, hd, _⟩ := (hZ j q' d).mp hmem
+      exact ⟨b, p, htr j b hb, hp, (hle _).mp hd⟩
+    · rintro ⟨b, p, hb, hp, hd⟩
+      obtain ⟨j, rfl, hj⟩ := hsurj i b hb
+      exact ⟨j, q, ⟨dist b p, (hZ j q _).mpr ⟨b, p, hj, hp, (hle _).mpr hd, rfl⟩⟩, rfl, rfl⟩
+  · refine List.Nodup.map_on ?_ hnd
+    rintro ⟨j, q⟩ hx ⟨j', q'⟩ hy hxy
+    simp only [Prod.mk.injEq] at hxy
+    obtain ⟨⟨⟨_, _⟩, d⟩, hmx, hx'⟩ := List.mem_map.mp hx
+    obtain ⟨⟨⟨_, _⟩, d'⟩, hmy, hy'⟩ := List.mem_map.mp hy
+    simp only [Prod.mk.injEq] at hx' hy'
+    obtain ⟨⟨rfl, rfl⟩⟩ := hx'
+    obtain ⟨⟨rfl, rfl⟩⟩ := hy'
+    obtain ⟨b, _, hb, _⟩ := (hZ _ _ d).mp hmx
+    obtain ⟨b', _, hb', _⟩ := (hZ _ _ d').mp hmy
+    have h1 := (List.getElem?_eq_some_iff.mp hb).1
+    have h2 := (List.getElem?_eq_some_iff.mp hb').1
+    rw [hinj _ _ h1 h2 hxy.1, hxy.2]
+  · rw [List.map_map, List.map_map, List.forall₂_map_left_iff, List.forall₂_map_right_iff,
+      List.forall₂_same]
+    rintro ⟨⟨j, q⟩, d⟩ hmem
+    obtain ⟨b, p, hb, hp, _, hd⟩ := (hZ j q d).mp hmem
+    exact ⟨b, p, htr j b hb, hp, by simp [distKm, hd]⟩
+
+/-- core of **C06_query_spec** — for every point set, every radius, both metrics, every tree
+obeying the contract and **every** permutation the shuffle may draw, `GeoIndex(pts,
+shuffle).query(qs, r)` succeeds and returns exactly the pairs within `r` km with original
+indices, each once, with the distances aligned. -/
+theorem query_spec (dist : P → P → α) (T : TreeFn P α) (hT : TreeOK dist T) (m : Metric)
+    (hm : m ≠ .unknown) (pts qs : List P) (r : α) (shuffle : Option (List Nat))
+    (hσ : ValidShuffle pts.length shuffle) :
+    ∃ ix pairs ds, Index.build m pts shuffle = .ok ix ∧ query T ix qs r = .ok (pairs, ds) ∧
+      QuerySpec m dist pts qs r pairs ds := by
+  have hmb : (m == Metric.unknown) = false := by
+    cases m <;> simp_all
+  cases shuffle with
+  | none =>
+    obtain ⟨Z, h1, h2, hZ, hnd⟩ := tree_answer dist T hT pts qs (scaleRadius m r)
+    have hspec := spec_of_Z m hm dist pts qs pts r Z id hZ hnd (fun _ _ h => h)
+      (fun i b h => ⟨i, rfl, h⟩) (fun _ _ _ _ h => h)
+    refine ⟨⟨m, none, pts, pts⟩, (Z.map Prod.fst), (Z.map Prod.snd).map (scaleDist m), ?_, ?_, ?_⟩
+    · simp [Index.build, hmb]
+    · simp only [query, h1, h2]
+      by_cases he : (Z.map Prod.fst).isEmpty
+      · have : Z = [] := by simpa using he
+        subst this; simp
+      · simp [he]
+    · have e : (Z.map Prod.fst).map (fun p : Nat × Nat => (id p.1, p.2)) = Z.map Prod.fst := by
+        simp
+      rw [e] at hspec; exact hspec
+  | some σ =>
+    have hperm : σ.Perm (List.range pts.length) := hσ
+    have hlt : ∀ i ∈ σ, i < pts.length := fun i hi => List.mem_range.mp (hperm.mem_iff.mp hi)
+    have hall : σ.all (· < pts.length) = true := by
+      simpa [List.all_eq_true] using hlt
+    set tp := σ.filterMap (pts[·]?) with htp
+    have hget : ∀ j, tp[j]? = σ[j]?.bind (pts[·]?) := getElem?_filterMap_getElem? pts σ hlt
+    have hlen : tp.length = σ.length := length_filterMap_getElem? pts σ hlt
+    obtain ⟨Z, h1, h2, hZ, hnd⟩ := tree_answer dist T hT tp qs (scaleRadius m r)
+    have hσnd : σ.Nodup := hperm.nodup_iff.mpr List.nodup_range
+    have htr : ∀ j b, tp[j]? = some b → pts[σ.getD j 0]? = some b := by
+      intro j b hb
+      rw [hget] at hb
+      cases hj : σ[j]? with
+      | none => simp [hj] at hb
+      | some i =>
+        simp only [hj, Option.bind_some] at hb
+        simpa [List.getD_eq_getElem?_getD, hj] using hb
+    have hsurj : ∀ i b, pts[i]? = some b → ∃ j, σ.getD j 0 = i ∧ tp[j]? = some b := by
+      intro i b hb
+      have hi : i < pts.length := (List.getElem?_eq_some_iff.mp hb).1
+      have : i ∈ σ := hperm.mem_iff.mpr (List.mem_range.mpr hi)
+      obtain ⟨j, hj⟩ := List.mem_iff_getElem?.mp this
+      exact ⟨j, by simp [List.getD_eq_getElem?_getD, hj], by rw [hget, hj]; simpa using hb⟩
+    have hinj : ∀ j j', j < tp.length → j' < tp.length → σ.getD j 0 = σ.getD j' 0 → j = j' := by
+      intro j j' h1 h2 h
+      rw [hlen] at h1 h2
+      simp only [List.getD_eq_getElem?_getD, List.getElem?_eq_getElem h1,
+        List.getElem?_eq_getElem h2, Option.getD_some] at h
+      exact (hσnd.getElem_inj_iff).mp h
+    have hspec := spec_of_Z m hm dist pts qs tp r Z (fun j => σ.getD j 0) hZ hnd htr hsurj hinj
+    have hguard : ((Z.map Prod.fst).all fun p => decide (p.1 < σ.length)) = true := by
+      rw [List.all_eq_true]
+      rintro ⟨j, q⟩ hx
+      obtain ⟨⟨⟨_, _⟩, d⟩, hmx, hx'⟩ := List.mem_map.mp hx
+      simp only [Prod.mk.injEq] at hx'
+      obtain ⟨rfl, rfl⟩ := hx'
+      obtain ⟨b, _, hb, _⟩ := (hZ _ _ d).mp hmx
+      simpa [hlen] using (List.getElem?_eq_some_iff.mp hb).1
+    refine ⟨⟨m, some σ, tp, pts⟩, (Z.map Prod.fst).map (fun p => (σ.getD p.1 0, p.2)),
+      (Z.map Prod.snd).map (scaleDist m), ?_, ?_, hspec⟩
+    · simp [Index.build, hmb, hall, htp]
+    · simp only [query, h1, h2]
+      by_cases he : (Z.map Prod.fst).isEmpty
+      · have : Z = [] := by simpa using he
+        subst this; simp
+      · simp [he, translate, hguard, Except.map]
+
+
+end Query
+
 end Geo
